@@ -45,6 +45,33 @@ P["C14"] = dict(
     ref="DESIGN.md section 3, C14",
 )
 
+P["C16"] = dict(
+    text="Bring-up structure decided on all paths: sort before probe with canonical Less/Len/Swap, failed or absent drivers never reach activation "
+         "and never stop the loop, first console/TTY win (stores dominated by == nil), link on the second arrival with AttachTo -> SetOutputSink -> "
+         "SetState(active), early-log hand-over (sink stored on every path, ring drained exactly when a sink is set, ring written exactly when none "
+         "is, masked indices, overwrite-oldest). 'Exactly once, in order' over all chunkings and ringBuffer.Read's two-segment arithmetic are not decided.",
+    technique="SSA dominance / must-pass-through ordering + writers-of ownership + canonical-body matching",
+    ref="DESIGN.md section 3, C16",
+)
+
+P["C17"] = dict(
+    text="The clauses of the terminal model that are visible in the code shape: exact special-byte dispatch with the documented action per case, "
+         "every cursor store classified as inside the viewport (constant 1, clamped argument, guarded increment, wrap test), every cursor/viewport "
+         "change followed by a recomputation of the derived buffer offset, and the offset formula itself (polynomial normal form). Equality with a "
+         "reference terminal over all byte streams, scrolling contents and buffer memory safety are not decided.",
+    technique="case-set exhaustiveness + SSA dominance facts per phi edge + must-pass-through + polynomial normal form",
+    ref="DESIGN.md section 3, C17",
+)
+
+P["C18"] = dict(
+    text="Mirroring structure between terminal and console decided on all paths: every mutating console call from package tty goes through VT.cons "
+         "under state == active; doWrite mirrors exactly the triple it stores, before any cursor change; lf's scrolling paths reach the active test "
+         "and then Scroll(up,1) + Fill(last line); SetState records the state and redraws with exact loop bounds and buffer offsets. Cell/pixel "
+         "equality is not decided (console side: C19).",
+    technique="SSA dominance facts + path ordering + counted-loop and polynomial offset matching",
+    ref="DESIGN.md section 3, C18",
+)
+
 ALL = ["C%02d" % i for i in range(1, 21)]
 
 def main():
